@@ -15,6 +15,31 @@ CHECKS["C01"] = ("TLC-checked index-map specification (TensorIndex.tla) + trace 
    "TensorIndex.tla defines unfold/partial_unfold/vec/matricize as index permutations derived from the documented layout and the folds independently in gather form; TLC checks on the spec, for every configuration (all shapes of order<=4, dims<=3, <=36 entries; order 5 in the thorough tier), that the map is a bijection and fold o unfold = id. Every such configuration is then executed by the real functions on label tensors in 9 dtypes (+bool by one-hot superposition) and 4 memory layouts and TLC validates each event (shape, layout, dtype, round trip) by exact equality. Data-obliviousness makes this decide all value assignments of those shapes.",
    "Bounded shapes; NumPy backend only; TLC and the Json module trusted; the harness only builds label tensors and copies results.",
    "DESIGN.md 5/C01")
+
+_DRV_NOTE = ("Prefix runs on small tensors (orders 2-4) drawn from VERIF_SEED; float64, NumPy backend; tolerances are the named constants of "
+             "DriverTrace.tla; a call that raises carries no obligation; TLC, the Json module and the harness's definitional measurements "
+             "(norms, Gram deviations, minima, dense reconstructions) are trusted.")
+CHECKS["C06"] = ("TLC model checking of the error-ownership skeleton Driver.tla + trace validation of prefix runs and callbacks of 11 iterative decompositions",
+   "Driver.tla models the control skeleton of the iterative decompositions with ownership of error values as state (which iterate each reported error belongs to, on every exit path, with line search and callbacks); TLC checks LastErrOwnsReturned / OwnersIncreasing / CallbackFresh / ErrsLenLaw for every algorithm, option set, cap <= 12, stop point and line-search outcome, and witness runs show that each as-found deviation (F06c, F06d, parafac2 stale entry) violates an invariant. Every prefix run n_iter_max = 0..K of the real code is a complete behaviour of the model: DriverTrace.tla computes the model's reachable Return states for that cap and accepts the run iff the list length is explained, all values are finite, the last value equals the recomputed true error of the returned decomposition (2e-6), shorter runs are prefixes of longer ones, and every callback error equals the error of the iterate passed with it.",
+   _DRV_NOTE, "DESIGN.md 5/C06")
+CHECKS["C07"] = ("TLC-validated monotonicity of recomputed objectives over consecutive prefix runs (Driver.tla skeleton, DriverTrace.tla clauses)",
+   "For the exact block-coordinate algorithms (CP-ALS incl. line search, HALS NN-CP, HOOI, PARAFAC2, TR-ALS, CMTF) consecutive prefix runs are consecutive iterates (PrefixStable in the spec); TLC rejects a trace when the recomputed relative error of D_k exceeds that of D_{k-1} by more than 5e-7 with well-conditioned blocks (measured cond <= 1e6) or when the reported list increases.",
+   _DRV_NOTE + " hals_nnls and the ridge regressors are not yet bound (see DESIGN.md).", "DESIGN.md 5/C07")
+CHECKS["C08"] = ("TLC model checking of canonical form at Return on both exit paths (Driver.tla) + trace validation of structure measurements",
+   "Driver.tla carries the canonical-form flag through Sweep / Normalise / both exits; TLC checks CanonAtReturn for all algorithms and caps and the witness F08a (break skips normalisation) violates it. Prefix runs with tol=0 (cap exit) and loose tolerances (convergence exit) log factor shapes, ranks, boundary/ring ranks, orthonormality of Tucker factors and PARAFAC2 projections, core-equals-projection, shared cross product, unit column norms / all-ones weights; DriverTrace.tla judges each returned object.",
+   _DRV_NOTE + " TT-SVD left-orthogonality and fractional rank specifications are covered by C09's check / not covered (see DESIGN.md).", "DESIGN.md 5/C08")
+CHECKS["C10"] = ("TLC trace validation of sign measurements of every returned array against the spec's obligation table (Driver.tla / DriverTrace.tla)",
+   "The spec's table Obliged(cfg) states which returned arrays must be non-negative per algorithm and nn_modes (PARAFAC2 mode 1 exempt as documented); every prefix run 0..K on signed / all-negative / sparse / integer data with built-in and non-negative user initialisations logs the minimum of each returned array and TLC rejects any negative obliged array.",
+   _DRV_NOTE, "DESIGN.md 5/C10")
+CHECKS["C14"] = ("TLC model checking of ZeroBudgetReturnsInit / FixedUntouched (Driver.tla) + trace validation of warm-start measurements",
+   "Driver.tla checks that a zero budget returns version 0 of the represented tensor, that sweeps touch only non-fixed modes (documented last-mode exemption in the spec's table) and that all-fixed short-circuits. Runs from user initialisations with unit / positive / negative / mixed weights log the distance between the dense result of the zero-budget run and the tensor the initialisation represents, bit-identity of every factor, and the distance between the run from (w, Fs) and the twin run from the weights-absorbed initialisation for budgets 0..5; TLC judges each.",
+   _DRV_NOTE, "DESIGN.md 5/C14")
+CHECKS["C15"] = ("TLC-checked ownership contract (Ownership.tla exemption table) + stateful trace validation of argument digests over 844 entry x kind calls",
+   "Ownership.tla states the contract (every argument slot outside the documented exemption table keeps its digest across Call/Return/Raise) and TLC checks it on a small model with a witness; a registry of 154 public entry points x argument kinds (views, tuples/lists/wrappers, masks, fixed-mode and coefficient lists, user initialisations, raising variants) is run twice on the same argument objects and every slot digest before/after is validated by OwnershipTrace.tla.",
+   "Digests are value digests (sha-256 of bytes+dtype+shape; containers: type, length, children); identity is covered by re-digesting the caller's own objects; generators/callables are opaque; NumPy backend only.", "DESIGN.md 5/C15")
+CHECKS["C18"] = ("TLC-checked dtype lattice and obligation table (Dtype.tla) + trace validation of the dtype of every returned array",
+   "Dtype.tla defines the promotion lattice twice (Hasse diagram and NumPy's table) and TLC proves them equal plus the leak classification total; the obligation table lists per entry point which returned slots must keep the input dtype and the documented exemptions; the registry is run in float32, float64 and (where supported) complex128 and DtypeTrace.tla judges every returned array, naming the leak class.",
+   "Only ndarray results are obliged (scalars are logged, not judged); NumPy backend only; the registry's list of complex-capable entry points follows the repository's tests.", "DESIGN.md 5/C18")
 NOT_YET = {}
 
 def main():
